@@ -356,7 +356,9 @@ fn check_in(dir: &Path, case: &Case, obs: &mut Obs) -> CaseResult {
         {
             // the roller handed to the appender and this clone do not share state; wait by observing the temp file
             let _ = &fw_for_wait;
-            wait_bg_idle_except(&active, &leftover_names);
+            if !wait_bg_idle_except(&active, &leftover_names) {
+                return fail("C07:panic:background-rotation", format!("roll #{} (base {}, count {}): the background rotation thread panicked inside the library and the rolled file was never archived", ri, case.base, case.count));
+            }
         }
         match res {
             Err(p) => {
@@ -461,13 +463,15 @@ fn check_in(dir: &Path, case: &Case, obs: &mut Obs) -> CaseResult {
 }
 
 /// background rotation renames the rolled file to `<stem>.<unix seconds>` first: wait until it is gone
+/// (false: the background thread died of a panic inside the library - it is not coming back)
 #[cfg(feature = "bg")]
-pub fn wait_bg_idle(active: &Path) {
+pub fn wait_bg_idle(active: &Path) -> bool {
     wait_bg_idle_except(active, &[])
 }
 
 #[cfg(feature = "bg")]
-pub fn wait_bg_idle_except(active: &Path, except: &[std::ffi::OsString]) {
+pub fn wait_bg_idle_except(active: &Path, except: &[std::ffi::OsString]) -> bool {
+    let panics_before = crate::engine::library_panics_total();
     let p = active.to_path_buf();
     let parent = p.parent().unwrap().to_path_buf();
     let stem = p.file_stem().unwrap().to_string_lossy().to_string();
@@ -484,7 +488,12 @@ pub fn wait_bg_idle_except(active: &Path, except: &[std::ffi::OsString]) {
         if !busy {
             // the rename into place is the last step; give the thread a moment to release the lock
             std::thread::sleep(std::time::Duration::from_micros(300));
-            return;
+            return true;
+        }
+        if crate::engine::library_panics_total() > panics_before || (std::time::Instant::now() > deadline && crate::engine::library_panics_total() > 0) {
+            // a panic inside the library on a thread of its own, and the rolled file is still waiting: that was the rotation
+            std::thread::sleep(std::time::Duration::from_millis(50));
+            return false;
         }
         if std::time::Instant::now() > deadline {
             eprintln!("[lv] background rotation did not finish within 20 s: infrastructure trouble");
